@@ -200,8 +200,8 @@ package ast
 //@   flag slow
 //@   assert_at entry [nalts] parsley.NAlts(parsley.Node(nl)) == len(nl)
 //@   assert_at entry [alts] forall k int :: 0 <= k && k < len(nl) ==> same(parsley.Alt(parsley.Node(nl), k), nl[k])
-//@   assert_at call#1 [kept] parsley.NodeOK(parsley.Node(nl)) && within(parsley.Node(nl))
-//@   assert_at call#1 [kept-elems] forall k int :: 0 <= k && k < len(nl) ==> parsley.GhostLo <= nl[k].ReaderPos() && nl[k].ReaderPos() <= parsley.GhostHi
+//@   assert_at call:SetReaderPos#1 [kept] parsley.NodeOK(parsley.Node(nl)) && within(parsley.Node(nl))
+//@   assert_at call:SetReaderPos#1 [kept-elems] forall k int :: 0 <= k && k < len(nl) ==> parsley.GhostLo <= nl[k].ReaderPos() && nl[k].ReaderPos() <= parsley.GhostHi
 //@ loop 1 (i rangeindex)
 //@   invariant 0 <= i && i <= len(nl) && cloinv(f)
 //@   invariant wfList(nl)
